@@ -164,9 +164,27 @@ def gen(rng):
             body.append(f"{redo[0]['name']} = Led({newpin})")
             redo[0]["where"] = "loop"  # not comparable with CPython any more (fresh object per pass)
             redo[0]["pins"] = redo[0]["pins"] + [newpin]
+        opening = None
+        btns = [d for d in devices if d["kind"] == "button"]
+        if btns and rng.random() < 0.5:
+            # the loop body opens with the first assignment of a new name reading the button: the injected poll still comes first
+            body.append(f"pressed = {btns[0]['name']}.is_pressed()")
+            body.append("mon.write(f\"p={int(pressed)}\")")
+            opening = "button"
+        elif rng.random() < 0.3:
+            body.append("seen = count")
+            body.append("mon.write(f\"s={seen}\")")
+            opening = "count"
         body.append("count += 1")
         body.append("acc = acc + count")
         body.append("mon.write(f\"c={count} a={acc}\")")
+        looplocal = rng.random() < 0.5
+        if looplocal:
+            # a name first assigned (from a literal) directly in the loop body and changed later in the same pass:
+            # Python re-runs the assignment on every pass
+            body.append(rng.choice(["lvl = 0", "lvl = 2 - 2", "lvl, hi = 0, 10"]))
+            body.append("lvl += count")
+            body.append("mon.write(f\"l={lvl}\")")
         if blk is not None:
             body.append(rng.choice(["blk = blk + 1", "blk = 1 + blk", "blk = blk + count - count + 1"]))
             body.append("mon.write(f\"b={blk}\")")
@@ -194,7 +212,7 @@ def gen(rng):
     animated = any(".animate(" in x for x in pre)
     baud_seq = bauds
     return "\n".join(L) + "\n", {"pre_ids": pre_ids, "loop_ids": loop_ids, "devices": devices, "has_main": has_main,
-                                 "animated_in_setup": animated and has_main, "bauds": baud_seq, "blk": blk}, tapes
+                                 "animated_in_setup": animated and has_main, "bauds": baud_seq, "blk": blk, "opening": opening if has_main else None, "looplocal": has_main and looplocal}, tapes
 
 
 USE_KINDS = {"DW", "AW", "DR", "AR", "TONE", "NOTONE", "PULSE"}
@@ -216,6 +234,7 @@ def monitor(events, meta, passes):
     motor = [d for d in meta["devices"] if d["kind"] == "motor"]
     motor_stopped = {d["name"]: 0 for d in motor}
     pass_events = {}
+    pre_events = []
     values = []
     for t, kind, f in events:
         if kind == "PASS":
@@ -224,11 +243,13 @@ def monitor(events, meta, passes):
             continue
         if cur >= 0 and kind not in ("HEAP", "LCDSNAP", "PASS_END", "END"):
             pass_events[cur].append((kind, f))
+        elif cur < 0:
+            pre_events.append((kind, f))
         if kind == "SER":
             text = trace.unesc(f[0])
             if "NOBEGIN" in f[2:]:
                 problems.append(("serial-before-begin", f"Serial used before Serial.begin (line {text!r})"))
-            if text.startswith("c=") or text.startswith("b=") or text.startswith("b0="):
+            if text.startswith(("c=", "b=", "b0=", "p=", "s=", "l=")):
                 values.append((cur, text))
             if text.startswith("S") and text[1:].isdigit():
                 n = int(text[1:])
@@ -283,14 +304,33 @@ def monitor(events, meta, passes):
         want.append((-1, f"b0={blk}"))
     if meta["has_main"]:
         acc = 1
+        tape = [0, 1, 1, 0, 1]
         for k in range(passes):
             acc += k + 1
+            if meta.get("opening") == "button":
+                want.append((k, f"p={tape[min(k + 1, len(tape) - 1)]}"))
+            elif meta.get("opening") == "count":
+                want.append((k, f"s={k}"))
             want.append((k, f"c={k + 1} a={acc}"))
+            if meta.get("looplocal"):
+                want.append((k, f"l={k + 1}"))
             if blk is not None:
                 want.append((k, f"b={blk + k + 1}"))
     if values != want:
         i = next((i for i, (a, b) in enumerate(zip(values, want)) if a != b), min(len(values), len(want)))
         problems.append(("variable-lifetime", f"printed variable values (pass, text) {values[i:i + 2]}, Python's {want[i:i + 2]}"))
+    # ---- a DC motor is driven to a safe stop (both direction pins low, enable at 0) in setup(), before its first command
+    for d in motor:
+        in1, in2, en = d["pins"]
+        touched = [(cur_k, kind, int(f[0]), int(f[1])) for cur_k, (kind, f) in
+                   [(-1, e) for e in pre_events] + [(k, e) for k in sorted(pass_events) for e in pass_events[k]]
+                   if kind in ("DW", "AW") and int(f[0]) in (in1, in2, en)]
+        first = touched[:3]
+        ok = len(first) == 3 and all(k == -1 for k, *_ in first) and \
+            sorted((kind, pin, v) for _, kind, pin, v in first) == sorted([("DW", in1, 0), ("DW", in2, 0), ("AW", en, 0)])
+        if touched and not ok:
+            problems.append(("motor-safe-stop", f"{d['name']} (declared {d['where']}): first writes to its pins are {[(k, kind, pin, v) for k, kind, pin, v in first]}, "
+                                                f"expected the safe stop (IN1=0, IN2=0, EN=0) inside setup()"))
     # ---- Serial.begin calls follow the declarations in source order
     got_bauds = [int(f[0]) for t, kind, f in events if kind == "SBEGIN"]
     if got_bauds != meta.get("bauds", got_bauds):
